@@ -101,7 +101,7 @@ class Known:
             for d in e.get("inputs", []):
                 self._index.setdefault(d, []).append(e)
 
-    def match(self, descriptor, config=None, host=None, divergence=None):
+    def match(self, descriptor, config=None, host=None, divergence=None, count=True):
         """Return the entry that lists exactly this input (descriptor), configuration, host and
         divergence class -- or None.  Messages, temp names and texts are never matched."""
         for e in self._index.get(descriptor, []):
@@ -112,7 +112,8 @@ class Known:
             dv = e.get("divergence", "*")
             if dv != "*" and divergence is not None and divergence not in dv:
                 continue
-            self.hits[e["id"]] += 1
+            if count:
+                self.hits[e["id"]] += 1
             return e
         return None
 
